@@ -21,7 +21,7 @@ P = {
  "C05": ("exploration", "§6 C05", "From the recorded settlement transfers: total distributed <= offered, per bidder <= allow-list cap (at acceptance for each fixed-price bid, at settlement for batch) and <= requested; caps are raised/lowered between bids and rounds.", ""),
  "C06": ("exploration", "§6 C06", "Each fixed-price bid is accepted iff the model's predicate holds; the published remainder equals offered minus accepted after every block; and the history of bid/read operations of every fixed-price auction is checked for linearizability with porcupine against a sequential (remaining, used-allowance) model, transactions of one block being concurrent operations.", "; porcupine v1.3.0 linearizability of recorded histories"),
  "C07": ("fault_enumeration", "§6 C07", "(a) no FinalizeBlock of any explored history (idle tails after terminal auctions, skipped boundaries, extreme amounts, crash re-execution) may return an error or panic; (b) for blocks whose begin-block makes n bank/pool calls a failure is injected into each call k<n on a scratch replica forked from the pre-block disk, and FinalizeBlock must report it whatever the position of the affected auction.", "; exhaustive per-block enumeration of bank-call failures on forked replicas"),
- "C08": ("exploration", "§6 C08", "Stored status after every block equals the model's status machine; only allowed edges, never before the instant, never later than the first block at/after it; finished/cancelled never change; bids/modifications accepted iff the model says open. Block times are biased to land on, 1 ns before and 1 ns after every start/end/release instant and to skip several.", ""),
+ "C08": ("exploration", "§6 C08", "Stored status after every block equals the model's status machine; only allowed edges, never before the instant, never later than the first block at/after it; finished/cancelled never change; bids/modifications accepted iff the model says open. Block times are biased to land on, 1 ns before and 1 ns after every start/end/release instant and to skip several; 3 % of auctions are scheduled beyond the year 2262; one history in seven holds more than a hundred auctions.", ""),
  "C09": ("exploration", "§6 C09", "At settlement the instalments are compared with floor(proceeds*weight) / remainder computed from the recorded proceeds transfer; every instalment must be paid exactly once, in the first block at/after its release time in which the auction is vesting, with the released flag flipping in the same block; crash re-execution and lost commits on release blocks.", ""),
  "C10": ("exploration", "§6 C10", "An adversary submits signed MsgAddAllowedBidder transactions in every state: all must be rejected and the allow-list unchanged; every stored bid's bidder must have an allow-list entry; the process (which links the app like cmd/fundraisingd and is built without the testing link flag) must have the switch off. Build part (not simulation, reported separately in evidence): the default-built binary vs the documented link-flag build.", "; plus a default-build probe of cmd/fundraisingd"),
  "C11": ("exploration", "§6 C11", "Modification chains by owners and strangers with new price/amount drawn from lower/equal/higher: accepted iff the model's predicate; charge equals the increase in required reservation; every bid ever seen still exists with the same auction, owner, type and denomination and never lower terms.", ""),
